@@ -5,6 +5,7 @@ import (
 	"fmt"
 	"math/rand"
 	"sort"
+	"strings"
 	"testing"
 	"testing/synctest"
 	"time"
@@ -25,6 +26,7 @@ type PSOp struct {
 	K    int    `json:"k"`
 	P    int    `json:"p"`
 	Secs int    `json:"secs"`
+	Sub  []PSOp `json:"sub"` // conc: operations run concurrently, their datastore accesses interleaved
 }
 
 // PSScenario is a history on one provider store; the scheduler interleaves the
@@ -67,7 +69,11 @@ func runPSInBubble(t *testing.T, sc *PSScenario, ch sim.Chooser) []sim.Ev {
 	inner := dssync.MutexWrap(ds.NewMapDatastore())
 	gate := &sim.Gate{}
 	gds := &sim.GateDS{Inner: inner, G: gate}
+	actors := sim.NewActors()
 	gds.ActorOf = func() string {
+		if n := actors.Name(); n != "" {
+			return n
+		}
 		if sim.OwnStackHas("ProviderManager).gcLoop") {
 			return "gc"
 		}
@@ -77,6 +83,7 @@ func runPSInBubble(t *testing.T, sc *PSScenario, ch sim.Chooser) []sim.Ev {
 	type kp struct{ k, p int }
 	known := map[string]kp{}
 	var cur *kp // the (k,p) of the foreground add in progress
+	curOf := map[string]*kp{} // per concurrent actor
 	closedAt := -1
 	gds.OnApply = func(op *sim.DSOp) {
 		who := op.Actor
@@ -85,6 +92,12 @@ func runPSInBubble(t *testing.T, sc *PSScenario, ch sim.Chooser) []sim.Ev {
 		}
 		if op.Op == "put" && cur != nil {
 			known[op.Key] = *cur
+		}
+		if op.Op == "put" && curOf[op.Actor] != nil {
+			known[op.Key] = *curOf[op.Actor]
+		}
+		if who != "gc" {
+			who = "fg"
 		}
 		x, ok := known[op.Key]
 		if !ok {
@@ -164,6 +177,77 @@ func runPSInBubble(t *testing.T, sc *PSScenario, ch sim.Chooser) []sim.Ev {
 			}
 			sort.Ints(out)
 			tr.Add("Get", "k", op.K, "provs", out, "err", errStr(err), "closed", closed, "ts", now())
+		case "conc":
+			// foreground operations running concurrently: every datastore access of
+			// theirs (and of the GC) is a scheduling point
+			isGC := func(g sim.GInfo) bool {
+				for _, f := range g.Frames {
+					if strings.Contains(f, "ProviderManager).gcLoop") {
+						return true
+					}
+				}
+				return false
+			}
+			for i, so := range op.Sub {
+				so := so
+				name := fmt.Sprintf("c%d", i)
+				switch so.Kind {
+				case "add":
+					tr.Add("AddStart", "k", so.K, "p", so.P, "ts", now())
+					c := kp{so.K, so.P}
+					curOf[name] = &c
+					closedAtStart := closed
+					actors.Go(name, func() {
+						err := pm.AddProvider(bg, keys[so.K], peer.AddrInfo{ID: provs[so.P]})
+						if err == records.ErrClosed && !closedAtStart {
+							// overlapped a concurrent Close: being refused is fine, and so is succeeding
+							tr.Add("AddRefused", "k", so.K, "p", so.P, "ts", now())
+							return
+						}
+						tr.Add("Add", "k", so.K, "p", so.P, "err", errStr(err), "closed", closedAtStart, "ts", now())
+					})
+				case "get":
+					tr.Add("GetStart", "k", so.K, "ts", now())
+					closedAtStart := closed
+					actors.Go(name, func() {
+						res, err := pm.GetProviders(bg, keys[so.K])
+						if err == records.ErrClosed && !closedAtStart {
+							return
+						}
+						out := []int{}
+						for _, ai := range res {
+							out = append(out, pnum[ai.ID])
+						}
+						sort.Ints(out)
+						tr.Add("Get", "k", so.K, "provs", out, "err", errStr(err), "closed", closedAtStart, "ts", now())
+					})
+				case "close":
+					if closed {
+						continue
+					}
+					actors.Go(name, func() {
+						_ = pm.Close()
+						closed = true
+						closedAt = now()
+						tr.Add("Close", "ts", now())
+					})
+				}
+			}
+			for steps := 0; steps < 10000; steps++ {
+				actors.Settle(isGC)
+				items := gate.Pending()
+				if len(items) == 0 {
+					if !actors.AnyAlive() {
+						break
+					}
+					continue
+				}
+				gate.Release(items[ch.Choose(len(items))], nil)
+			}
+			tr.Add("ConcEnd", "ts", now())
+			for k := range curOf {
+				delete(curOf, k)
+			}
 		case "tick":
 			// time passes; a GC tick may fire and park the sweeper at its first access
 			time.Sleep(time.Duration(op.Secs) * time.Second)
@@ -238,7 +322,19 @@ func genPSScenario(r *rand.Rand, long bool) *PSScenario {
 		case 6, 7:
 			sc.Ops = append(sc.Ops, PSOp{Kind: "tick", Secs: []int{1, 1800, 3600, 3601, 7199, 7200, 7201, 9000}[r.Intn(8)]})
 		case 8:
-			sc.Ops = append(sc.Ops, PSOp{Kind: "restart"})
+			if r.Intn(2) == 0 {
+				sc.Ops = append(sc.Ops, PSOp{Kind: "restart"})
+			} else {
+				a := PSOp{Kind: "add", K: k, P: p}
+				b := PSOp{Kind: "get", K: k}
+				switch r.Intn(4) {
+				case 0:
+					b = PSOp{Kind: "add", K: k, P: r.Intn(sc.NP)}
+				case 1:
+					b = PSOp{Kind: "close"}
+				}
+				sc.Ops = append(sc.Ops, PSOp{Kind: "conc", Sub: []PSOp{a, b}}, PSOp{Kind: "get", K: k})
+			}
 		case 9:
 			if r.Intn(3) == 0 {
 				sc.Ops = append(sc.Ops, PSOp{Kind: "close"})
